@@ -187,6 +187,11 @@ def check_history(case, ctx: Ctx):
             paths.add("partial")
         elif kind == "copy":
             h = ctx.call(what, h.copy)
+        elif kind == "emptied_copy":
+            # an emptied copy starts from nothing: what was entered before does not count any more
+            h = ctx.call(what, lambda: h.copy(include_frequencies=False))
+            ref = Ref()
+            ctx.label("emptied_copy")
         elif kind == "scale":
             c = stage["c"]
             op = stage["op"]
@@ -248,6 +253,33 @@ def check_history(case, ctx: Ctx):
             require(math.isnan(float(getattr(s, nm))), "stale_statistics", f"after {inv}: statistics.{nm} = {getattr(s, nm)!r} (must read invalid)")
         require(math.isnan(s.mean()) and math.isnan(s.variance()) and math.isnan(s.std()), "stale_moments", f"after {inv}: mean {s.mean()!r} variance {s.variance()!r}")
         ctx.label("invalidate_" + inv)
+        # ---- whatever is accumulated afterwards, the statistics stay invalid (no number may describe part of the data)
+        then = case.get("then")
+        if then and inv != "slice":
+            mid = float(edges[0] + (edges[1] - edges[0]) / 2)
+            valid = ctx.call("h1(valid part)", physt.h1, np.array([mid, mid]), binning())
+            if then == "fill":
+                ctx.call("fill after invalidation", r.fill, mid)
+                r2 = r
+            elif then == "fill_n":
+                ctx.call("fill_n after invalidation", r.fill_n, np.array([mid, float(edges[-1])]))
+                r2 = r
+            elif then == "add_right":
+                r2 = ctx.call("invalid + valid", lambda: r + valid)
+            elif then == "add_left":
+                r2 = ctx.call("valid + invalid", lambda: valid + r)
+            elif then == "iadd":
+                def g(v=valid):
+                    v += r
+                    return v
+                r2 = ctx.call("valid += invalid", g)
+            else:
+                r2 = ctx.call("sum([valid, invalid])", sum, [valid, r])
+            s2 = r2.statistics
+            for nm in ("sum", "sum2", "min", "max", "weight"):
+                require(math.isnan(float(getattr(s2, nm))), "invalid_statistics_revived", f"after {inv} then {then}: statistics.{nm} = {getattr(s2, nm)!r} (must stay invalid)")
+            require(math.isnan(s2.mean()) and math.isnan(s2.variance()), "invalid_statistics_revived", f"after {inv} then {then}: mean {s2.mean()!r}")
+            ctx.label("then_" + then)
     ctx.label(f"paths{len(paths)}")
     ctx.nt((len(paths) >= 2 and not ref.unit_weights) or rescaled or bool(inv))
 
@@ -269,8 +301,8 @@ def histories(draw, tier="quick"):
 
     @st.composite
     def stage(draw):
-        kind = draw(st.sampled_from(["construct", "fill", "fill_n", "fill_n", "partial_add", "partial_iadd", "partial_sum", "copy", "scale"]))
-        if kind == "copy":
+        kind = draw(st.sampled_from(["construct", "fill", "fill_n", "fill_n", "partial_add", "partial_iadd", "partial_sum", "copy", "scale", "emptied_copy"]))
+        if kind in ("copy", "emptied_copy"):
             return {"kind": kind}
         if kind == "scale":
             return {"kind": kind, "op": draw(st.sampled_from(["mul", "rmul", "div", "imul", "normalize"])),
@@ -283,7 +315,8 @@ def histories(draw, tier="quick"):
         return st_
 
     stages = draw(st.lists(stage(), min_size=1, max_size=7 if tier == "thorough" else 5))
-    return {"pairs": ps, "stages": stages, "invalidate": draw(st.sampled_from([None, None, "sub", "sub_free", "array_add", "array_mul", "array_div", "bare", "slice"]))}
+    return {"pairs": ps, "stages": stages, "invalidate": draw(st.sampled_from([None, None, "sub", "sub_free", "array_add", "array_mul", "array_div", "bare", "slice"])),
+            "then": draw(st.sampled_from([None, "fill", "fill_n", "add_right", "add_left", "iadd", "sum"]))}
 
 
 FINDINGS = []
